@@ -737,6 +737,15 @@ class Resolver:
         self_cls: concrete class of `self`/`cls` when known (context-sensitive dispatch)."""
         env = self.env(fi)
         f = e.func
+        if isinstance(f, ast.IfExp):
+            # (A if c else B)(...): either may be what is called
+            subs = []
+            for br in (f.body, f.orelse):
+                c2 = ast.Call(func=br, args=e.args, keywords=e.keywords)
+                ast.copy_location(c2, e)
+                r = self.callees(c2, fi, self_cls)
+                subs += list(r[1]) if r[0] == "multi" else [r]
+            return ("multi", subs)
         if isinstance(f, (ast.Subscript, ast.Call)):
             t0 = self.type_of(f, fi, env)
             if t0[0] == "dictget":
